@@ -6,7 +6,7 @@ CONSTANTS
   BinOps <- MC_OpsAll
   Maps = {}
   OnePairs = {}
-  Routes = {"equation", "block", "shared_block", "shared_each"}
+  Routes = {"equation", "block", "shared_block", "shared_each", "cancel_first", "cancel_mid"}
   MaxUnits = 1000
   MinUnits = 0
   MaxDepth = 8
